@@ -26,6 +26,8 @@ type MiniPKI struct {
 	intKey          *ecdsa.PrivateKey
 	leafKey         *ecdsa.PrivateKey
 	base            time.Time
+	// OddSAN: the next certificates issued carry a subjectAltName with a 5-byte iPAddress (non-fatal parse error in the CT x509 fork)
+	OddSAN bool
 }
 
 var oidCTPoison = asn1.ObjectIdentifier{1, 3, 6, 1, 4, 1, 11129, 2, 4, 3}
@@ -78,6 +80,15 @@ func (p *MiniPKI) Issue(serial int64, precert, viaInt bool) []byte {
 		KeyUsage: x509.KeyUsageDigitalSignature, ExtKeyUsage: []x509.ExtKeyUsage{x509.ExtKeyUsageServerAuth}, BasicConstraintsValid: true}
 	if precert {
 		t.ExtraExtensions = []pkix.Extension{{Id: oidCTPoison, Critical: true, Value: []byte{0x05, 0x00}}}
+	}
+	if p.OddSAN {
+		// subjectAltName ::= SEQUENCE { dNSName [2] "leaf-N.example.com", iPAddress [7] 01 02 03 04 05 }: the 5-byte address makes the
+		// lenient CT parser report a NonFatalErrors value while the certificate still parses and the chain still verifies
+		name := []byte(fmt.Sprintf("leaf-%d.example.com", serial))
+		gn := append([]byte{0x82, byte(len(name))}, name...)
+		gn = append(gn, 0x87, 0x05, 1, 2, 3, 4, 5)
+		t.DNSNames = nil
+		t.ExtraExtensions = append(t.ExtraExtensions, pkix.Extension{Id: asn1.ObjectIdentifier{2, 5, 29, 17}, Value: append([]byte{0x30, byte(len(gn))}, gn...)})
 	}
 	parent, key := p.rootCert, p.rootKey
 	if viaInt {
